@@ -153,7 +153,7 @@ CHECKS = {
     'C15': dict(
         engine='E2',
         technique='symbolic interpretation of the AST of backoff_iter (vf/pysym.py) into z3 real/int terms with bounded unrolling and unwinding '
-                  'check; IEEE-754 inductive step decided by cvc5 (QF_FP); counterexamples replayed on the real generator',
+                  'check; IEEE-754 inductive step decided by cvc5 1.4 (QF_FP), models read back; counterexamples replayed on the real generator',
         text='Read from the repository on every run, backoff_iter is executed symbolically: for all real start/stop/factor and symbolic count 0..5 '
              'every path obligation (ValueError exactly outside the valid region and before any value, exactly count values, first == start, '
              'monotone, capped, exact growth law incl. 0 -> min(1, stop)) is unsat; count=\'repeat\' never terminates within the bound; for all '
@@ -185,10 +185,11 @@ CHECKS = {
         technique='bounded symbolic execution (CrossHair/z3): solver-chosen scripts of file operations on SpooledBytesIO/SpooledStringIO for every '
                   'max_size, differential against io.BytesIO/io.StringIO; MultiFileReader over solver-chosen partitions',
         text='From four preset contents (multi-byte characters, LF/CR/CRLF and other Unicode line boundaries) every script of 2 operations out of '
-             'write/read(n)/read()/readline/readlines/iteration/seek(p)/seek-to-end/tell/getvalue/len with solver-chosen sizes, positions and '
+             'write/read(n)/read()/readline/readline(n)/readlines/iteration/seek(p)/seek-to-end/tell/getvalue/len with solver-chosen sizes, positions and '
              'chunk classes runs on a spooled object for EVERY max_size 1..len+3 and never-rolling, and on the io reference: results, tell() and '
              'getvalue() agree after each step. MultiFileReader: every content of <= 2 items, every 3-way partition (empty members), scripts of '
-             'sized/unsized reads and seek(0), then a sized read of the rest. Bounded model checking.',
+             'sized/unsized reads and seek(0), then a sized read of the rest; every 4-call script over three fixed members. Every script of 4 '
+             'read/seek calls (incl. a refused seek) with NO tell()/getvalue() in between, then the rest is read. Bounded model checking.',
         note='Trusted: CrossHair/z3 exhaustion, io.BytesIO/io.StringIO as reference, real TemporaryFile. Outside: truncate, fileno, longer scripts, other encodings.',
         ref='C18'),
     'C19': dict(
